@@ -66,6 +66,12 @@ where
     fn poll_next(self: Pin<&mut Self>, cx: &mut Context<'_>) -> Poll<Option<Self::Item>> {
         let mut this = self.project();
 
+        // Every stream has been exhausted. This is immediately the case when
+        // merging zero streams, which must not reach the indexer below.
+        if *this.complete == this.streams.len() {
+            return Poll::Ready(None);
+        }
+
         let mut readiness = this.wakers.readiness();
         readiness.set_waker(cx.waker());
 
